@@ -1,6 +1,8 @@
 (* C02: the programs regenerated from the CURRENT source of the five linked-list
    helpers (coq/Gen/C02_Gen.v), run by the interpreter of Model/C02_PtrInterp.v,
-   are the pointer-level helpers about which the theorems are proved.  These
+   are the pointer-level helpers about which the theorems are proved
+   (gen_present = false only when the class keeps no hand-written linked list at
+   all: then the translator emits empty programs and these statements are vacuous).  These
    lemmas are re-checked on every run against the freshly generated file: an edit
    of a helper that changes its reads and writes breaks them. *)
 From Boltons Require Import Lib.Prelude Lib.C02_Syntax Model.C02_Model Model.C02_PtrModel Model.C02_PtrInterp
@@ -30,24 +32,29 @@ Ltac crush :=
   simpl; try reflexivity.
 
 Lemma gen_init_ll_ok pr k v :
+  gen_present = true ->
   run_helper gen_init_ll pr k v = Some (p_init (pr_heap pr) (pr_fresh pr), DNone).
-Proof. unfold run_helper, gen_init_ll, p_init. crush. Qed.
+Proof. intro H. unfold gen_present in H. first [discriminate H | (unfold run_helper, gen_init_ll, p_init; crush)]. Qed.
 
 Lemma gen_move_to_front_ok pr k v :
+  gen_present = true ->
   run_helper gen_move_to_front pr k v
   = match p_move_to_front pr k with Some (pr', n) => Some (pr', DCell n) | None => None end.
-Proof. unfold run_helper, gen_move_to_front, p_move_to_front. crush. Qed.
+Proof. intro H. unfold gen_present in H. first [discriminate H | (unfold run_helper, gen_move_to_front, p_move_to_front; crush)]. Qed.
 
 Lemma gen_add_to_front_ok pr k v :
+  gen_present = true ->
   run_helper gen_add_to_front pr k v = Some (p_add_to_front pr k v, DNone).
-Proof. unfold run_helper, gen_add_to_front, p_add_to_front. crush. Qed.
+Proof. intro H. unfold gen_present in H. first [discriminate H | (unfold run_helper, gen_add_to_front, p_add_to_front; crush)]. Qed.
 
 Lemma gen_evict_ok pr k v :
+  gen_present = true ->
   run_helper gen_evict pr k v
   = match p_evict pr k v with Some (pr', e) => Some (pr', DKeyO (Some e)) | None => None end.
-Proof. unfold run_helper, gen_evict, p_evict. crush. Qed.
+Proof. intro H. unfold gen_present in H. first [discriminate H | (unfold run_helper, gen_evict, p_evict; crush)]. Qed.
 
 Lemma gen_remove_ok pr k v :
+  gen_present = true ->
   run_helper gen_remove pr k v
   = match p_remove pr k with Some pr' => Some (pr', DNone) | None => None end.
-Proof. unfold run_helper, gen_remove, p_remove. crush. Qed.
+Proof. intro H. unfold gen_present in H. first [discriminate H | (unfold run_helper, gen_remove, p_remove; crush)]. Qed.
